@@ -10,7 +10,8 @@
    code before those commits (checkable with VERIF_C06_FIXED=0 against an unpatched tree). *)
 From Coq Require Import List NArith.
 From HV Require Import Base.Res Base.Str Model.Parse Model.RefSplice Model.Assemble
-  Proofs.ParseProofs Proofs.AssembleProofs Proofs.AssembleTotal.
+  Model.AssembleOps
+  Proofs.ParseProofs Proofs.AssembleProofs Proofs.AssembleTotal Proofs.AssembleOpsProofs.
 Import ListNotations.
 
 (* ====================== PART A: the code as it now is (fixed = true) ====================== *)
@@ -91,6 +92,48 @@ Theorem C06_deterministic_inputs_unchanged :
   series_a true st' ord = Ok (st', rows).
 Proof. exact (deterministic_unchanged true). Qed.
 Print Assumptions C06_deterministic_inputs_unchanged.
+
+(* "Gives the same answer every time it is asked" over HISTORIES on one object
+   (Model/AssembleOps.v): for every sequence of assemblies and reset_column_mapper
+   switches, each answer equals the assembly of a fresh object holding the current table
+   and the CURRENT sidecar -- the object's state is just the current sidecar ([run_spec]).
+   Holds of the code as it is ([keepcat = true]) and for both values of [fixed]. *)
+Theorem C06_history_answers_current_sidecar :
+  forall (fixed keepcat : bool) (ops : list op) (o : obj),
+  forallb (fun p => negb (is_setcell p)) ops = true ->
+  run fixed keepcat o ops = run_spec fixed (tb_df (o_tab o)) (tb_sidecar (o_tab o)) ops.
+Proof. exact reset_history_current. Qed.
+Print Assumptions C06_history_answers_current_sidecar.
+
+(* FULL STATEMENT with cell edits (set_cell) in the history:
+     forall ops o, run true true o ops = run_spec true (tb_df (o_tab o)) (tb_sidecar (o_tab o)) ops.
+   It is FALSE of the code as it is: _handle_transforms leaves the 'category' dtype on the
+   object's frame, so after an assembly set_cell of a categorical column to a value it did
+   not hold raises TypeError, while a fresh object accepts the edit (finding C06-F7).
+   Witness, and the same history under the repair (work on a copy: [keepcat = false]): *)
+Theorem C06_set_cell_after_assembly_refuted :
+  nth 1 (run true true ex_obj ops_edit_after) RNone = RExn TypeError /\
+  nth 0 (run true true ex_obj ops_edit_fresh) (RExn TypeError) = RNone /\
+  run true false ex_obj ops_edit_after
+  = run_spec true (tb_df ex_st) (tb_sidecar ex_st) ops_edit_after.
+Proof. exact set_cell_after_assembly_refuted. Qed.
+Print Assumptions C06_set_cell_after_assembly_refuted.
+
+(* ... and it holds for ALL histories (edits included) once the dtype marks are not kept. *)
+Theorem C06_history_with_edits_repaired :
+  forall (fixed : bool) (ops : list op) (o : obj),
+  run fixed false o ops = run_spec fixed (tb_df (o_tab o)) (tb_sidecar (o_tab o)) ops.
+Proof. exact (fun fixed ops o => history_current fixed false ops o (or_introl eq_refl)). Qed.
+Print Assumptions C06_history_with_edits_repaired.
+
+Example C06_history_nonvacuous :
+  run true true ex_obj [OAssemble []; OReset ex_sidecar_b; OAssemble []; OReset ex_sidecar; OAssemble []]
+  = [ RRows [ [66; 44; 32; 40; 82; 44; 32; 76; 47; 120; 41]%N; [40; 76; 47; 121; 41]%N; [] ];
+      RNone;
+      RRows [ [66; 44; 32; 82; 44; 32; 76; 47; 120]%N; []; [82]%N ];
+      RNone;
+      RRows [ [66; 44; 32; 40; 82; 44; 32; 76; 47; 120; 41]%N; [40; 76; 47; 121; 41]%N; [] ] ].
+Proof. exact ex_switch. Qed.
 
 (* splice_tree + splice_well_delimited, BOUNDED: for every template over
    {a, blank, ',', '(', ')', {r}} of at most 7 symbols that is delimiter-well-formed and
